@@ -25,6 +25,10 @@ Lemma fact_first_request : first_request = 0.
 Proof. reflexivity. Qed.
 Lemma fact_accept_none : accept_none_shutdown = Some 0.
 Proof. reflexivity. Qed.
+Lemma fact_accept_none_unguarded : accept_none_only_if_unsent = false.
+Proof. reflexivity. Qed.
+Lemma fact_insert_arg : ongoing_insert_is_stream = true.
+Proof. reflexivity. Qed.
 
 (* ---------- stream-id arithmetic for request ids ---------- *)
 Definition top_index : N := 2 ^ 60 - 1.
@@ -117,6 +121,34 @@ Proof.
     split; cbn [s_sent s_inq s_last]; try assumption. congruence.
 Qed.
 
+(* the closing GOAWAY of accept(): after shutdown(0) the id on the wire promises nothing beyond the served requests *)
+Lemma shutdown_id_zero last :
+  (forall l, last = Some l -> okid l) -> shutdown_id last 0 = first_unserved last.
+Proof.
+  intros Hl. destruct last as [l|]; cbn [first_unserved].
+  - destruct (Hl l eq_refl) as [Hm Hle]. rewrite fact_shutdown_some.
+    change (2 ^ 62) with 4611686018427387904 in *.
+    assert (Ht : top_index = 1152921504606846975) by reflexivity.
+    rewrite (sid_add_req l 0) by (try assumption; try reflexivity; change (2 ^ 62) with 4611686018427387904; lia).
+    replace (4 * N.min (l / 4 + 0) top_index) with l by (rewrite Ht; lia).
+    rewrite (sid_add_req l 1) by (try assumption; try reflexivity; change (2 ^ 62) with 4611686018427387904; lia).
+    rewrite Ht. lia.
+  - rewrite fact_shutdown_none, fact_first_request. reflexivity.
+Qed.
+
+Lemma do_shutdown_closing s :
+  (forall l, s_last s = Some l -> okid l) ->
+  exists g, s_sent (snd (do_shutdown s 0)) = Some g /\ g <= first_unserved (s_last s) /\
+            s_last (snd (do_shutdown s 0)) = s_last s.
+Proof.
+  intros Hl. unfold do_shutdown, inner_shutdown. rewrite (shutdown_id_zero _ Hl).
+  destruct (s_sent s) as [g0|].
+  - rewrite fact_guard. destruct (g0 <=? first_unserved (s_last s)) eqn:C; cbn [snd s_sent s_last].
+    + exists g0. repeat split. lia.
+    + eexists. repeat split. lia.
+  - cbn [snd s_sent s_last]. eexists. repeat split. lia.
+Qed.
+
 (* the accept loop against the monitor *)
 Definition loop_post (sent last : option N) (m1 : mon) (a : answer) (q' : list N) (last' : option N) : Prop :=
   m_wire m1 = sent /\
@@ -199,14 +231,18 @@ Proof.
     + exact Hok'.
   - (* none *)
     destruct Hp as (Ht1 & Hq1 & El & Hok'). subst last'.
-    rewrite fact_accept_none.
+    rewrite fact_accept_none, fact_accept_none_unguarded. cbn [andb].
     set (s1 := {| s_last := s_last s; s_sent := s_sent s; s_recv := recv'; s_ongoing := ong'; s_chan := [];
                   s_inq := q'; s_ctl := []; s_err := None; s_dead := false |}).
     assert (Hinv1 : srv_inv s1 m1) by (split; cbn [s_sent s_inq s_last s1]; assumption).
     destruct (do_shutdown_inv s1 m1 0 ltac:(reflexivity) Hinv1) as (m2 & Hr2 & Hinv2).
+    destruct (do_shutdown_closing s1 Hlast) as (g & Eg & Hle & El2).
     destruct (do_shutdown s1 0) as [w s2]. cbn [fst snd] in *.
     exists m2. split; [|exact Hinv2].
-    rewrite mon_run_app, Hr, mon_run_app, Hr2. reflexivity.
+    rewrite mon_run_app, Hr, mon_run_app, Hr2. cbn [mon_run mon_step].
+    rewrite (si_wire _ _ Hinv2), Eg, (si_top _ _ Hinv2), El2. cbn [s1 s_last].
+    assert (C : (g <=? first_unserved (s_last s)) = true) by (cbn [s1 s_last] in Hle; lia).
+    rewrite C. reflexivity.
   - (* pending *)
     destruct Hp as (Ht1 & Hq1 & Eq' & El). subst q' last'.
     cbn [fst snd]. rewrite mon_run_app, Hr. cbn [mon_run mon_step]. rewrite Hq1.
@@ -272,6 +308,9 @@ Qed.
 
 Theorem model_line h : Forall wf_gop h -> line (gtrace h).
 Proof. intros Hwf. apply line_okb_sound, model_on_the_line, Hwf. Qed.
+
+Theorem model_closing h : Forall wf_gop h -> closing_goaway (gtrace h).
+Proof. intros Hwf. apply line_okb_closing, model_on_the_line, Hwf. Qed.
 
 (* ---------- client: the model is the RFC reference client ---------- *)
 Lemma sid_is_request_mod4 id : sid_is_request id = (id mod 4 =? 0).
